@@ -5,7 +5,9 @@ Rules about it (C01-R8, C02-R1, C09-R8, C14-R7, C15-R5, C18-R1/R3) are stated on
 tree uses:
   option  `last_key: Option<Vec<u8>>`                      present = Some, bytes = the payload
   flag    `last_key: S` with S = { <Vec<u8>>, <bool> }      present = the bool, bytes = the Vec
-(the second keeps the allocation across blocks and still tells the empty key from "no key")."""
+  range   `last_key: Option<Range<usize>>`                  present = Some, bytes = self.buffer[range]
+(the second keeps the allocation across blocks and still tells the empty key from "no key"; the third reads the key
+back from the block buffer, which is sound while the buffer is only appended to as long as a key is present)."""
 from .common import *
 
 
@@ -22,7 +24,9 @@ class LastKeyRepr:
         self.ty = ty
         if ty is None:
             return
-        if ty.startswith("std::option::Option<"):
+        if ty.startswith("std::option::Option<std::ops::Range<usize>"):
+            self.mode = "range"
+        elif ty.startswith("std::option::Option<"):
             self.mode = "option"
         elif ty in F.adts and F.adts[ty]["kind"] == "Struct":
             fs = F.adts[ty]["variants"][0]["fields"]
@@ -38,6 +42,8 @@ class LastKeyRepr:
             return "Option<Vec<u8>> (present = Some)"
         if self.mode == "flag":
             return f"{self.struct} {{ {self.bytes}: Vec<u8>, {self.flag}: bool }} (present = {self.flag})"
+        if self.mode == "range":
+            return "Option<Range<usize>> into the block buffer (present = Some, bytes = self.buffer[range])"
         return f"unrecognised representation `{self.ty}`"
 
     # ---- expressions
@@ -51,6 +57,12 @@ class LastKeyRepr:
             return p is not None and is_self_field(p, "last_key")
         if self.mode == "flag":
             return is_self_field(s, "last_key", self.bytes)
+        if self.mode == "range":
+            # self.buffer[r] with r the payload of (a copy of) self.last_key — the whole range, nothing added to it
+            if not (s.k == "call" and s.x["path"].endswith("::index") and len(s.a) == 2 and is_self_field(s.a[0], "buffer")):
+                return False
+            p = unwrap_payload(s.a[1].strip(), "Some")
+            return p is not None and is_self_field(p, "last_key")
         return False
 
     def mentions_bytes(self, e):
@@ -69,7 +81,7 @@ class LastKeyRepr:
             e, enum, labels, oth = switch_on(b, bb)
             if e.k == "discr" and enum == "std::option::Option" and "Some" in labels and "None" in labels:
                 x = e.a[0]
-                if (self.mode == "option" and is_self_field(x, "last_key")) or (x.strip().k == "call" and x.strip().x["path"].endswith(A("bw_last_key")) and is_arg(x.strip().a[0], "self")):
+                if (self.mode in ("option", "range") and is_self_field(x, "last_key")) or (x.strip().k == "call" and x.strip().x["path"].endswith(A("bw_last_key")) and is_arg(x.strip().a[0], "self")):
                     direct.append((bb, labels["Some"], labels["None"]))
                     continue
             if self.mode == "flag" and enum is None:
@@ -127,7 +139,7 @@ class LastKeyRepr:
 
     def absent_stores(self, b):
         out = []
-        if self.mode == "option":
+        if self.mode in ("option", "range"):
             for site, st in self._field_stores(b):
                 e = b._expr_of_def((site, "assign", st["rv"]))
                 if e.k == "agg" and e.x.get("variant") == "None":
@@ -163,7 +175,65 @@ class LastKeyRepr:
             if len(clr) == 1 and len(ext) == 1 and len(flg) == 1 and b.dominates(clr[0], ext[0]):
                 last = flg[0] if b.dominates(ext[0], flg[0]) else ext[0]
                 out.append(("reuse", last, [clr[0], ext[0], flg[0]]))
+        elif self.mode == "range":
+            # self.last_key = Some(a..b) with a = buffer.len() right before and b = buffer.len() right after the one
+            # append of `key` to the buffer: the range is exactly where the key bytes were written
+            muts = self.buffer_mutations(b)
+            for site, st in self._field_stores(b):
+                e = b._expr_of_def((site, "assign", st["rv"]))
+                if not (e.k == "agg" and e.x.get("variant") == "Some" and e.a and e.a[0].k == "agg" and (e.a[0].x.get("adt") or "").endswith("ops::Range") and len(e.a[0].a) == 2):
+                    continue
+                lo, hi = (x.strip() for x in e.a[0].a)
+                islen = lambda x: x.k == "call" and x.x["path"].endswith("::len") and is_self_field(x.a[0], "buffer") and x.x.get("site") is not None
+                if not (islen(lo) and islen(hi)):
+                    continue
+                s1, s2 = lo.x["site"], hi.x["site"]
+                between = [m for m, app in muts if b.dominates(s1, m) and b.dominates(m, s2) and m not in (s1, s2)]
+                if len(between) != 1:
+                    continue
+                m = between[0]
+                a_ = b.arg_exprs(m)
+                if callee_name(callee_of(b.term(m.bb))).endswith("extend_from_slice") and len(a_) == 2 and is_arg(a_[1], key_name) and b.dominates(s2, site):
+                    out.append(("range", site, [s1, m, s2, site]))
         return out
+
+    def buffer_mutations(self, b):
+        """[(site, is_append)] for every call of b that takes self.buffer mutably"""
+        APPEND = ("extend_from_slice", "extend", "push", "append", "extend_from_within", "write_all", "write", "reserve", "reserve_exact")
+        out = []
+        for s, c, t in b.calls():
+            a = b.arg_exprs(s)
+            if not a or not is_self_field(a[0], "buffer"):
+                continue
+            tys = [op["pl"]["ty"] if op["k"] in ("copy", "move") else op.get("ty", "") for op in t["args"]]
+            if not tys or not tys[0].startswith("&mut"):
+                continue
+            out.append((s, callee_name(c).rsplit("::", 1)[-1] in APPEND))
+        return out
+
+    def range_stable(self):
+        """range mode only: list of reasons why a stored range could stop denoting the key bytes (empty = sound).
+        The buffer may only be appended to, except in a function that also makes the key absent."""
+        from .c03 import mutated_fields
+        bad = []
+        per = {}
+        for bb_, site, is_store in mutated_fields(self.F, A("bw_struct")).get("buffer", []):
+            per.setdefault(bb_.path, (bb_, []))[1].append((site, is_store))
+        for path, (bb_, lst) in sorted(per.items()):
+            if self.absent_stores(bb_):
+                continue
+            name = path.split("::")[-1]
+            muts = self.buffer_mutations(bb_)
+            for site, is_store in lst:
+                if is_store:
+                    bad.append(f"{name}: the buffer is assigned ({bb_.loc(site)})")
+            for s_, app in muts:
+                if not app:
+                    bad.append(f"{name}: {callee_name(callee_of(bb_.term(s_.bb))).rsplit('::', 1)[-1]} on the buffer while a key may be present ({bb_.loc(s_)})")
+            borrows = [x for x in lst if not x[1]]
+            if len(borrows) != len(muts):
+                bad.append(f"{name}: {len(borrows)} mutable borrows of the buffer for {len(muts)} calls on it (a borrow escapes)")
+        return bad
 
     # ---- the getter
     def getter_pure(self, lk):
@@ -171,7 +241,7 @@ class LastKeyRepr:
         e = lk.expr_at_return()
         if self.mode == "option":
             return pure_option_view(e, "last_key")
-        if self.mode == "flag":
+        if self.mode in ("flag", "range"):
             alts = flat_alts(e)
             somes = [a for a in alts if a.k == "agg" and a.x.get("variant") == "Some"]
             nones = [a for a in alts if a.k == "agg" and a.x.get("variant") == "None"]
